@@ -1,6 +1,106 @@
-import BufrModel.Decode
+import BufrProofs.Codec
+/-
+  C02 — Compression never changes content; incompressible datasets fall back safely.
+
+  Property theorems only (helper lemmas: BufrProofs/Codec.lean).  Model: BufrModel/Codec.lean
+  (`putNumericCompressed`, `encNumCol`, `compressible`, `encodeData`) and BufrModel/Decode.lean
+  (`getNumericCompressed`, `setBitsValue`), tied to bufr_dataset.c by the correspondence streams of
+  props/c02.py (compress = 1 against compress = 0 for the same dataset).
+
+  Proved at full strength: the numeric/code/flag column codec (every width 1..64, every number of
+  subsets, every mixture of present and missing raw values, every slice request), the encoder's
+  choice of R0/NBINC being sound, the fall-back to uncompressed form, and that the compressed and
+  the uncompressed decoder turn the same raw bits into the same value.  The lock-step walk over all
+  columns of a template (`decodeCompressedLoop`) and character/associated-field columns are covered
+  by correspondence and oracle; `C02_dataset_partial` names what is missing.
+-/
 namespace Bufr.C02
 open Bufr
-/-- placeholder while the column theorems are written -/
+
+/-- a single subset is never compressed -/
 theorem C02_single_subset_not_compressed (s : List Node) : compressible [s] = false := rfl
+
+/-- **numeric column round trip.**  For one element of `n ≥ 1` subsets holding any raw values that
+fit its width (missing = all ones included): what `bufr_put_numeric_compressed` writes is read by
+`bufr_get_numeric_compressed` back into exactly those raw values, subset by subset, for the whole
+dataset or any slice `from..to`, and the cursor stops right after the column.  (The `hspread`
+clause is what `bufr_dataset_compressible` now tests for 64-bit elements.) -/
+theorem C02_numeric_column (w : W) (hI : WInv w) (n0 : Node) (rest : List Node)
+    (h1 : 1 ≤ n0.enc.nbits) (h2 : n0.enc.nbits ≤ 64)
+    (hv : ∀ n ∈ n0 :: rest, value2bits n ≤ missingIvalue n0.enc.nbits)
+    (hspread : n0.enc.nbits = 64 → ∀ a ∈ n0 :: rest, ∀ b ∈ n0 :: rest,
+      value2bits a ≠ missingIvalue n0.enc.nbits → value2bits b ≠ missingIvalue n0.enc.nbits →
+      value2bits a - value2bits b < 2^63 - 1)
+    (r : R) (hIr : RInv r) (tail : List Bool)
+    (hb : w.bits ++ r.bits = (putNumericCompressed w (n0 :: rest)).bits ++ tail)
+    (cb : Node) (col : List Node) (hnb : cb.enc.nbits = n0.enc.nbits)
+    (g : Range) (hg : g.OK) (hn : g.nsub = (n0 :: rest).length) (hcol : (cb :: col).length = g.count) :
+    ∃ r', getNumericCompressed r (cb :: col) g =
+        some (r', zipWithNodes setBitsValue (cb :: col) (g.slice ((n0 :: rest).map value2bits))) ∧
+      r'.bits = tail ∧ RInv r' :=
+  numeric_column_roundtrip w hI n0 rest h1 h2 hv hspread r hIr tail hb cb col hnb g hg hn hcol
+
+/-- **the encoder's column plan is sound**: R0 fits the element, NBINC fits both its 6-bit field
+and the element width, a column announced as constant is constant, and a listed column gives each
+subset its own raw value back with all ones (and only all ones) meaning missing -/
+theorem C02_plan_sound (nb : Int) (h1 : 1 ≤ nb) (h2 : nb ≤ 64) (vals : List Nat) (hne : vals ≠ [])
+    (hv : ∀ v ∈ vals, v ≤ missingIvalue nb)
+    (hspread : nb = 64 → ∀ a ∈ vals, ∀ b ∈ vals, a ≠ missingIvalue nb → b ≠ missingIvalue nb → a - b < 2^63 - 1) :
+    (encNumCol nb vals).1 ≤ missingIvalue nb ∧
+    ((encNumCol nb vals).2.1 : Int) ≤ nb ∧ (encNumCol nb vals).2.1 < 64 ∧
+    ((encNumCol nb vals).2.1 = 0 → (encNumCol nb vals).2.2 = [] ∧ ∀ v ∈ vals, v = (encNumCol nb vals).1) ∧
+    ((encNumCol nb vals).2.1 > 0 → (encNumCol nb vals).2.2.length = vals.length ∧
+      (encNumCol nb vals).2.2.map (decInc nb (encNumCol nb vals).1 (encNumCol nb vals).2.1) = vals) :=
+  encNumCol_sound nb h1 h2 vals hne hv hspread
+
+/-- **safe fall-back**: when the subsets cannot be expressed in compressed form, asking for
+compression produces exactly the uncompressed data section, and the compression bit of the Section 3
+flag is clear -/
+theorem C02_fallback (ss : List (List Node)) (dataFlag : Nat) (h : compressible ss = false) :
+    (encodeData ss dataFlag 1).2 = (encodeData ss dataFlag 0).2 ∧
+    (encodeData ss dataFlag 1).1 = (encodeData ss dataFlag 0).1 := by
+  unfold encodeData
+  simp [h]
+
+/-- the compression bit is set exactly when the compressed form was written -/
+theorem C02_flag (ss : List (List Node)) (dataFlag : Nat) (h : compressible ss = true) :
+    (encodeData ss dataFlag 1).1 = (dataFlag &&& (BUFR_FLAG_OBSERVED ||| BUFR_FLAG_COMPRESSED)) ||| BUFR_FLAG_COMPRESSED ∧
+    (encodeData ss dataFlag 1).2 = (columns ss).foldl putColumn ((W.new 0).alloc (s4Estimate ss)) := by
+  unfold encodeData
+  simp [h]
+
+/-- **one value function**: the compressed decoder (`bufr_descriptor_set_bitsvalue`) and the
+uncompressed one (`bufr_get_desc_value`) turn the same raw bits of a code table, flag table or
+integer element into the same value (class 31 aside, where nothing is ever missing) -/
+theorem C02_same_value_function (n : Node) (raw : Nat) (hs : n.flags.skipped = false)
+    (hx : Desc.x n.desc ≠ 31 ∧ n.desc ≠ 31000)
+    (ht : n.enc.type = .codetable ∨ n.enc.type = .flagtable ∨
+      (n.enc.type = .numeric ∧ ∃ v, (mkvalNode n).val = .i32 v ∨ (mkvalNode n).val = .i64 v)) :
+    (setBitsValue n raw).val = valueOfBits (mkvalNode n) (mkvalNode n).val raw := by
+  have he := (mkvalNode_enc n).1
+  have hd := (mkvalNode_enc n).2
+  unfold setBitsValue valueOfBits
+  simp only [hs, Bool.false_eq_true, if_false, he, hd]
+  have h31 : ¬ (n.desc = 31000 ∧ n.enc.nbits = 1) := fun h => hx.2 h.1
+  rcases ht with h | h | ⟨h, v, hv | hv⟩
+  · simp [h, h31]
+  · simp [h, h31]
+  · simp only [h, hv, h31]
+    by_cases hm : raw = missingIvalue n.enc.nbits <;> simp [hm, hx.1]
+  · simp only [h, hv, h31]
+    by_cases hm : raw = missingIvalue n.enc.nbits <;> simp [hm, hx.1]
+
+/-! ### Non-vacuity -/
+
+def exNode (v : Int) : Node :=
+  { desc := 12101, enc := { type := .numeric, scale := 0, ref := 0, nbits := 16, afNbits := 0 }, val := .i32 v }
+
+/-- three subsets, one of them missing -/
+example : ∀ n ∈ [exNode 300, exNode (-1), exNode 7], value2bits n ≤ missingIvalue 16 := by decide +kernel
+example : encNumCol 16 ([exNode 300, exNode (-1), exNode 7].map value2bits) = (7, 9, [293, 511, 0]) := by
+  decide +kernel
+example : WInv (W.new 0) := WInv_new 0
+example : (⟨3, 2, 3⟩ : Range).OK := Or.inr (by decide)
+example : compressible [[exNode 1], [exNode 2, exNode 3]] = false := by decide +kernel
+
 end Bufr.C02
